@@ -1405,10 +1405,22 @@ class Agg:
 
 
 def table_depth(tier, api, n0):
-    """maximal number of state-changing operations in an explored history (one read follows each history)"""
+    """maximal number of state-changing operations in an explored history (every history is followed by reads).
+    Chosen from measured cost: one history costs ~0.35 ms on an empty table and 10-50 ms on a 491-entry table
+    (chibi's VM needs ~1 us per bucket to walk a table, ~20 us per call of a hash/equivalence procedure from C)."""
+    small = n0 <= FULL_DUMP_N0
     if tier == "quick":
-        return 4 if (api == "69" and n0 <= 4) else 3
-    return 4
+        if api == "69":
+            return 4 if n0 <= 2 else (3 if small else 2)
+        return 3 if small else 2
+    if api == "69":
+        return 5 if n0 <= 2 else (4 if small else 3)
+    return 4 if small else (3 if n0 <= 62 else 2)
+
+
+def run_cost_ms(api, eqname, n0):
+    fast = (eqname in ("eq?", "equal?") and api == "69") or (eqname == "eq?")
+    return (0.35 + n0 * (0.02 if fast else 0.07)) * (1.6 if api == "125" and n0 > 31 else 1.0)
 
 
 def initial_sizes():
@@ -1464,7 +1476,7 @@ def main(tier, replay=None):
     est = {}
     for api in ("69", "125"):
         for eqname in EQUIVS:
-            for L in (3, 4, 5):
+            for L in (2, 3, 4, 5):
                 if any(table_depth(tier, api, n) == L for n in n0s):
                     runs, st = explore(api, eqname, 3, L)
                     est[(api, eqname, L)] = len(runs)
@@ -1473,15 +1485,15 @@ def main(tier, replay=None):
             for n0 in n0s:
                 L = table_depth(tier, api, n0)
                 nruns = est[(api, eqname, L)]
-                per = 1.0 + 0.02 * n0                       # rough relative cost of one run
-                nchunks = max(1, int(math.ceil(nruns * per / 14000.0)))
+                cost = nruns * run_cost_ms(api, eqname, n0)          # estimated CPU ms
+                nchunks = max(1, int(math.ceil(cost / 20000.0)))
                 for c in range(nchunks):
-                    jobs.append((nruns * per / nchunks, ("table", ("asan", api, eqname, n0, L, nchunks, c, True))))
+                    jobs.append((cost / nchunks, ("table", ("asan", api, eqname, n0, L, nchunks, c, True))))
     nrow = len(insts)
     step = max(8, nrow // 40)
     first = True
     for lo in range(0, nrow, step):
-        jobs.append((6000 if first else 4000, ("coh", (tier, lo, min(nrow, lo + step), first))))
+        jobs.append((12000 if first else 8000, ("coh", (tier, lo, min(nrow, lo + step), first))))
         first = False
     jobs.append((30000, ("cyclic", 0)))
     for n in (9999, 10000, 10001) if tier == "quick" else (9998, 9999, 10000, 10001, 10002, 20000):
